@@ -98,7 +98,8 @@ Section C14.
     wf_qdot : qdot_size M = dof_count M;
     wf_qsize : q_size M = dof_count M + count_sph (joints M);                    (* one extra q per spherical joint *)
     wf_fixed : forall f, In f (fixedb M) -> fparent f < nbodies M;               (* fixed bodies resolve to a movable parent *)
-    wf_lq : length (lambda_q M) = S (dof_count M)
+    wf_lq : length (lambda_q M) = S (dof_count M);
+    wf_kind : forall i, 0 < i < nbodies M -> jkind (nth i (joints M) root_joint) <> JRoot
   }.
 
   Lemma WF_model0 : WF (model0 O).
@@ -128,19 +129,19 @@ Section C14.
   Qed.
 
   Lemma add_movable_WF (M : Model) parent X j b nm M' id :
-    WF M -> valid_parent M parent ->
+    WF M -> valid_parent M parent -> jkind j <> JRoot ->
     add_movable O M parent X j b nm = (M', ROk id) ->
     WF M' /\ nbodies M' = S (nbodies M) /\ fixedb M' = fixedb M /\ id = N.of_nat (nbodies M) /\ customs M' = customs M
     /\ wcS (ws M') = wcS (ws M).
   Proof.
-    intros W Vp. unfold add_movable. destruct (name_taken M nm); [discriminate|].
+    intros W Vp Hk. unfold add_movable. destruct (name_taken M nm); [discriminate|].
     destruct (if is_fixed_id M parent then (fparent (getfixed O M (fidx parent)), fxf (getfixed O M (fidx parent)))
               else (N.to_nat parent, stid O)) as [mp mpX] eqn:Empx.
     intro H. injection H as <- <-.
     assert (Hmp : mp < nbodies M).
     { destruct Vp as [[Hlt Hf]|[Hf Hi]]; rewrite Hf in Empx; injection Empx as <- _; [exact Hlt|].
       apply (wf_fixed M W). unfold getfixed. apply nth_In. exact Hi. }
-    destruct W as [Wpos Wl Wj Wx Wi Ww Wm Wws Wc Wp Wq Wd Wqd Wqs Wf Wlq].
+    destruct W as [Wpos Wl Wj Wx Wi Ww Wm Wws Wc Wp Wq Wd Wqd Wqs Wf Wlq Wk].
     unfold last_joint in *. unfold nbodies in *.
     split; [|cbn; rewrite app_length; cbn; repeat split; lia].
     constructor; unfold nbodies, last_joint;
@@ -161,6 +162,10 @@ Section C14.
       replace (Nat.pred (length (joints M) + 1)) with (length (joints M)) by lia.
       rewrite app_nth2 by lia. rewrite Nat.sub_diag. cbn [nth jq jdof]. lia.
     - (* fixed bodies *) intros f Hf. specialize (Wf f Hf). lia.
+    - (* joint kinds *)
+      intros i [Hi0 Hi]. destruct (Nat.eq_dec i (length (bodies M))) as [->|Hne].
+      + rewrite app_nth2 by lia. rewrite Wj, Nat.sub_diag. cbn. exact Hk.
+      + rewrite app_nth1 by lia. apply Wk. lia.
   Qed.
 
   Lemma add_fixed_WF (M : Model) parent X b nm M' id :
@@ -177,7 +182,7 @@ Section C14.
       apply (wf_fixed M W). unfold getfixed. apply nth_In. exact Hi. }
     destruct (body_join O (getbody O M mp) pX b) as [pb|]; [|discriminate].
     intro H. injection H as <- <-.
-    destruct W as [Wpos Wl Wj Wx Wi Ww Wm Wws Wc Wp Wq Wd Wqd Wqs Wf Wlq].
+    destruct W as [Wpos Wl Wj Wx Wi Ww Wm Wws Wc Wp Wq Wd Wqd Wqs Wf Wlq Wk].
     unfold nbodies in *.
     split; [|cbn; rewrite ?upd_length, ?app_length; cbn; repeat split; lia].
     constructor; unfold nbodies, last_joint in *;
@@ -216,6 +221,14 @@ Section C14.
     unfold valid_parent, is_fixed_id. intros [[H1 H2]|[H1 H2]] Hn Hf; rewrite Hf; [left|right]; split; auto; lia.
   Qed.
 
+  Lemma classify_not_root a : jkind (classify_axis O a) <> JRoot.
+  Proof. unfold classify_axis; cbn. repeat match goal with |- context [if ?b then _ else _] => destruct b end; discriminate. Qed.
+
+  Lemma nr_joint3 k (a b c : SV T) : k <> JRoot -> jkind (joint3 k a b c) <> JRoot.
+  Proof. cbn. auto. Qed.
+  Lemma nr_mk k (ax : list (SV T)) d q c : k <> JRoot -> jkind (mkJoint k ax d q c) <> JRoot.
+  Proof. cbn. auto. Qed.
+
   Lemma add_emulated_WF : forall axes (M : Model) parent X b nm M' id,
     WF M -> valid_parent M parent -> (N.of_nat (nbodies M + length axes) < fixed_disc)%N ->
     add_emulated O M parent X axes b nm = (M', ROk id) ->
@@ -224,13 +237,13 @@ Section C14.
   Proof.
     induction axes as [|a rest IH]; intros M parent X b nm M' id W Vp Hs H; [discriminate|].
     destruct rest as [|a2 rest'].
-    - cbn in H. destruct (add_movable_WF _ _ _ _ _ _ _ _ W Vp H) as (W' & Hn & Hf & Hid & Hc & _).
+    - cbn in H. destruct (add_movable_WF _ _ _ _ _ _ _ _ W Vp (classify_not_root a) H) as (W' & Hn & Hf & Hid & Hc & _).
       subst id. cbn [length] in *.
       splits; auto; try lia; try (apply (movable_id_valid M); [lia | exact Hn]); try (rewrite Hn; reflexivity).
     - cbn [add_emulated] in H.
       destruct (add_movable O M parent X (classify_axis O a) (null_body O) 0%N) as [M1 r1] eqn:E1.
       destruct r1 as [id1|]; [|discriminate].
-      destruct (add_movable_WF _ _ _ _ _ _ _ _ W Vp E1) as (W1 & Hn1 & Hf1 & Hid1 & Hc1 & _).
+      destruct (add_movable_WF _ _ _ _ _ _ _ _ W Vp (classify_not_root a) E1) as (W1 & Hn1 & Hf1 & Hid1 & Hc1 & _).
       assert (V1 : valid_parent M1 id1).
       { subst id1. apply (movable_id_valid M); [cbn [length] in Hs; lia | exact Hn1]. }
       assert (Hs1 : (N.of_nat (nbodies M1 + length (a2 :: rest')) < fixed_disc)%N).
@@ -249,7 +262,7 @@ Section C14.
                 (wmS w) (wmU w) (wmDinv w) (wmu w) (wIc w) (wIA w) (wd w) (wu w)
                 (wcS w ++ [repeat (svzero O) (cdof c)]) (wcU w ++ [[]]) (wcDinv w ++ [[]]) (wcu w ++ [[]]))).
   Proof.
-    intros [Wpos Wl Wj Wx Wi Ww Wm Wws Wc Wp Wq Wd Wqd Wqs Wf Wlq].
+    intros [Wpos Wl Wj Wx Wi Ww Wm Wws Wc Wp Wq Wd Wqd Wqs Wf Wlq Wk].
     constructor; unfold nbodies, last_joint in *; cbn; try assumption.
     - unfold ws_len in *; cbn. decompose [and] Wws. rewrite !app_length; cbn. repeat split; try assumption; lia.
     - rewrite !app_length; cbn; lia.
@@ -272,13 +285,13 @@ Section C14.
       assert (A : (0 <? N.of_nat (nbodies M))%N = true) by (apply N.ltb_lt; pose proof (wf_pos M W); lia).
       assert (B : (N.of_nat (nbodies M) <? N.of_nat (S (nbodies M)))%N = true) by (apply N.ltb_lt; lia).
       rewrite A, B. reflexivity. }
-    assert (MV : forall j, add_movable O M parent X j b nm = (M', ROk id) ->
+    assert (MV : forall j, jkind j <> JRoot -> add_movable O M parent X j b nm = (M', ROk id) ->
        WF M' /\ nbodies M <= nbodies M' <= nbodies M + 6 /\ length (fixedb M) <= length (fixedb M') <= S (length (fixedb M))
        /\ (valid_parent M' id /\ is_body_id M' id = true)).
-    { intros j Hj. destruct (add_movable_WF _ _ _ _ _ _ _ _ W Vp Hj) as (W' & Hn & Hf & Hid & _).
+    { intros j Hkj Hj. destruct (add_movable_WF _ _ _ _ _ _ _ _ W Vp Hkj Hj) as (W' & Hn & Hf & Hid & _).
       subst id. rewrite Hf.
       splits; auto; try lia; try (apply (movable_id_valid M); [lia|exact Hn]); try (apply IDm; exact Hn). }
-    destruct sp; try (eapply MV; exact H); try discriminate.
+    destruct sp; try (eapply MV; [|exact H]; try apply classify_not_root; cbn; discriminate); try discriminate.
     - (* fixed *)
       destruct (add_fixed_WF _ _ _ _ _ _ _ W Vp H) as (W' & Hn & Hf & _ & _ & Hid).
       subst id.
@@ -294,9 +307,9 @@ Section C14.
     - (* floating base *)
       destruct (add_movable O M parent X (joint3 JTransXYZ (tx O) (ty O) (tz O)) (null_body O) 0%N) as [M1 r1] eqn:E1.
       destruct r1 as [id1|]; [|cbn in H; discriminate]. cbn in H.
-      destruct (add_movable_WF _ _ _ _ _ _ _ _ W Vp E1) as (W1 & Hn1 & Hf1 & Hid1 & _).
+      destruct (add_movable_WF _ _ _ _ _ _ _ _ W Vp (nr_joint3 JTransXYZ _ _ _ ltac:(discriminate)) E1) as (W1 & Hn1 & Hf1 & Hid1 & _).
       assert (V1 : valid_parent M1 id1) by (subst id1; apply (movable_id_valid M); [lia|exact Hn1]).
-      destruct (add_movable_WF _ _ _ _ _ _ _ _ W1 V1 H) as (W' & Hn & Hf & Hid & _).
+      destruct (add_movable_WF _ _ _ _ _ _ _ _ W1 V1 (nr_joint3 JSpherical _ _ _ ltac:(discriminate)) H) as (W' & Hn & Hf & Hid & _).
       subst id. rewrite Hf, Hf1.
       assert (V2 : valid_parent M' (N.of_nat (nbodies M1))) by (apply (movable_id_valid M1); [lia|exact Hn]).
       assert (ID2 : is_body_id M' (N.of_nat (nbodies M1)) = true).
@@ -321,7 +334,7 @@ Section C14.
       match type of H with add_movable O ?MM _ _ _ _ _ = _ => set (M1 := MM) in * end.
       assert (W1 : WF M1) by (apply WF_custom_reg; exact W).
       assert (V1 : valid_parent M1 parent) by (apply (valid_parent_mono M); auto).
-      destruct (add_movable_WF _ _ _ _ _ _ _ _ W1 V1 H) as (W' & Hn & Hf & Hid & _).
+      destruct (add_movable_WF _ _ _ _ _ _ _ _ W1 V1 (nr_mk (JCustom c) _ _ _ _ ltac:(discriminate)) H) as (W' & Hn & Hf & Hid & _).
       subst id. change (nbodies M1) with (nbodies M) in *. change (fixedb M1) with (fixedb M) in *.
       rewrite Hf.
       splits; auto; try lia; try (apply (movable_id_valid M); [lia|exact Hn]); try (apply IDm; exact Hn).
